@@ -114,6 +114,7 @@ class _Recorder:
 
   def __init__(self):
     self.calls = []     # (code object, returned value)
+    self.sites = []     # parallel to calls: line number (module frame) of the calling statement
 
   def on_return(self, code, offset, retval):
     if code.co_filename != "<prog>":
@@ -121,6 +122,7 @@ class _Recorder:
     f = sys._getframe(1)  # pylint: disable=protected-access
     if f.f_back is not None and f.f_back.f_code.co_name == "<module>":
       self.calls.append((code, retval))
+      self.sites.append(f.f_back.f_lineno)
 
   def start(self):
     m = sys.monitoring
@@ -135,8 +137,21 @@ class _Recorder:
     m.free_tool_id(self.TOOL)
 
 
+MAX_DEPTH = 12
+
+
 def _encode(obj, H, depth=0):
-  """Run-time value -> value term; records class MROs in H."""
+  """Run-time value -> value term; records class MROs in H.
+
+  A PEP 585 alias object (`list[int]`, also the degenerate `set[0]`: an instance of
+  types.GenericAlias) is recorded as the CLASS OBJECT OF ITS ORIGIN: the alias is a transparent proxy
+  of that class (calling it constructs an instance of the origin, attribute access is forwarded to
+  the origin) and PEP 484/585 define it to denote the class in the type language, which is how
+  pytype (and every PEP 484 checker) models it: `x = list[int]` is `x: type[list[int]]`.
+  A value nested deeper than MAX_DEPTH is cut off with the marker "$deep", which every type admits
+  in the soundness reading (PytdTypes.tla); the fixed C01 corpus has no value deeper than 7."""
+  if isinstance(obj, types.GenericAlias) and isinstance(obj.__origin__, type):
+    obj = obj.__origin__
   if isinstance(obj, type):
     H.setdefault(obj.__name__, [c.__name__ for c in obj.__mro__])
     return ["$class", [[obj.__name__, []]]]
@@ -145,7 +160,7 @@ def _encode(obj, H, depth=0):
   cls = type(obj)
   name = cls.__name__
   H.setdefault(name, [c.__name__ for c in cls.__mro__])
-  if depth > 4:
+  if depth > MAX_DEPTH:
     return ["$deep", []]
   if cls in (list, tuple):
     return [name, [_encode(x, H, depth + 1) for x in obj]]
@@ -210,8 +225,14 @@ def run_program(prog):
         if isinstance(mv, types.FunctionType) and mn != "__init__":
           code_name[mv.__code__] = "%s.%s" % (n, mn)
   rets = []
-  for code, val in rec.calls:
+  ret_sites = []      # parallel to rets: index (0-based, in stmts) of the statement making the call
+  starts, line = [], 1
+  for k in kept:
+    starts.append(line)
+    line += srcs[k].count("\n")
+  for (code, val), site in zip(rec.calls, rec.sites):
     if code in code_name:
       rets.append([code_name[code], _encode(val, H)])
+      ret_sites.append(max(i for i, st in enumerate(starts) if st <= site))
   return {"src": final_src, "stmts": [prog[k] for k in kept], "names": names, "attrs": attrs,
-          "rets": rets, "H": H}
+          "rets": rets, "ret_sites": ret_sites, "H": H}
